@@ -1,5 +1,6 @@
-(* Design probe: the composition argument of C01, with the node-level facts as section hypotheses.
-   Pins down exactly what C02 (certificate), C03 (one signature per height) and Authentic must deliver. *)
+(* C01: the composition argument.  Network-level agreement follows, for every validator count and every behaviour of at
+   most F keys, from two node-level facts, which enter as hypotheses of the theorem (section variables, no axioms):
+   Certificate (what C02 delivers together with signature authenticity) and OneSign (what C03 delivers). *)
 From Coq Require Import List Arith Lia ZArith.
 Import ListNotations.
 
@@ -80,4 +81,3 @@ Proof.
   eapply OneSign; eauto.
 Qed.
 End Agreement.
-Print Assumptions agreement.
